@@ -9,6 +9,7 @@
 //                 asynchronous processors completed by another thread, inputs emitted by another thread) built through
 //                 the real GraphBuilder, run on the inplace executor;   mode pool : same on ThreadPoolGraphExecutor
 //                 (1-4 workers).  run / reset x 1-3 on the same Graph instance.
+//   mode samedata : graph mode where half of the conditional dependencies have their condition equal to their target
 //   mode inject : graph mode plus raw inputs (data without producer) emitted by another thread WHILE Graph::run
 //                 activates (an emitter the closure does not know about)
 // Trace: named atomics (v<i>.act, v<i>.wn, e<i>_<k>.wn, d<j>.closure, d<j>.acq, ctx.wvn, ctx.wdn, ctx.cb) + events
@@ -103,7 +104,8 @@ static void yields(int n) {
 static void publish(GraphData* d, int id, const OptVal& v, const char* who) {
   auto c = d->emit<uint64_t>();
   if (!c) {
-    vrt_event("ORACLE lost-emit %s could not acquire d%d", who, id);
+    // somebody published it before (a preset of a produced data): fine; otherwise the emit is lost
+    if (g->publishes[id] == 0) vrt_event("ORACLE lost-emit %s could not acquire d%d although nobody published it", who, id);
     return;
   }
   if (++g->publishes[id] > 1) vrt_event("ORACLE dup-publish d%d acquired twice", id);
@@ -152,7 +154,7 @@ class MixProcessor : public GraphProcessor {
         }
       }
       ins.push_back(in);
-      txt += " " + show(in);
+      txt += " " + (in.has ? show(in) : std::string(dep->ready() ? "e" : "-"));
     }
     vrt_event("invoke %d%s", spec->id, txt.c_str());
     if (++g->invoked[spec->id] > 1) vrt_event("ORACLE dup-invoke v%d processor runs for the %d. time in one run", spec->id, g->invoked[spec->id]);
@@ -181,12 +183,14 @@ class MixProcessor : public GraphProcessor {
         yields(n);
         self->emit_all(ins);
         --g->inflight;
+        vrt_event("done %d", self->spec->id);
         c.done(0);
       });
       return;
     }
     emit_all(ins);
     --g->inflight;
+    vrt_event("done %d", spec->id);
     closure.done(0);
   }
   const VertS* spec = nullptr;
@@ -332,6 +336,7 @@ static void name_graph(Built& b) {
     for (size_t k = 0; k < deps.size(); ++k) vrt_namef(&deps[k]._waiting_num, sizeof(deps[k]._waiting_num), "e%zu_%zu.wn", i, k);
   }
   for (int j = 0; j < b.spec.ndata; ++j) {
+    if (b.data[j] == nullptr) continue;   // an input no vertex refers to is not part of the graph
     vrt_namef(&b.data[j]->_closure, sizeof(b.data[j]->_closure), "d%d.closure", j);
     vrt_namef(&b.data[j]->_acquired, sizeof(b.data[j]->_acquired), "d%d.acq", j);
   }
@@ -350,7 +355,9 @@ static void emit_spec(const GraphS& s) {
   }
 }
 
-static GraphS gen_graph(Rng& rng, bool allow_async) {
+// same_pct: percentage of conditional dependencies whose condition IS their target (`to(A).on(A)`); 0 in the
+// regular modes (see mode samedata)
+static GraphS gen_graph(Rng& rng, bool allow_async, int same_pct) {
   GraphS s;
   int ninputs = 1 + (int)rng.below(4);
   int nverts = 3 + (int)rng.below(10);
@@ -368,7 +375,11 @@ static GraphS gen_graph(Rng& rng, bool allow_async) {
       if (rng.below(100) < 45) {
         d.cond = (int)rng.below(s.ndata);
         d.ev = rng.below(2);
-        if (d.cond == d.target && rng.below(4)) d.cond = (int)rng.below(s.ndata);
+        if ((int)rng.below(100) < same_pct) d.cond = d.target;
+        else if (d.cond == d.target) {
+          if (s.ndata < 2) d.cond = -1;
+          else d.cond = (d.target + 1 + (int)rng.below(s.ndata - 1)) % s.ndata;
+        }
       }
       d.essential = rng.below(100) < 25;
       v.deps.push_back(d);
@@ -386,7 +397,7 @@ static void run_graph(uint64_t seed, const std::string& mode) {
   bool pool = mode == "pool";
   bool inject = mode == "inject";
   Built b;
-  b.spec = gen_graph(rng, true);
+  b.spec = gen_graph(rng, true, mode == "samedata" ? 50 : 0);
   InplaceGraphExecutor inplace;
   b.exec.inner = &inplace;
   printf("RUN %lu mode=%s\n", (unsigned long)seed, mode.c_str());
@@ -412,14 +423,16 @@ static void run_graph(uint64_t seed, const std::string& mode) {
     // plan of the cycle
     std::vector<int> targets;
     int nt = 1 + (int)rng.below(3);
-    for (int i = 0; i < nt; ++i) {
+    for (int i = 0; i < nt || targets.empty(); ++i) {
       int t = rng.below(4) ? ninputs + (int)rng.below(s.ndata - ninputs) : (int)rng.below(s.ndata);
+      if (b.data[t] == nullptr) continue;
       if (std::find(targets.begin(), targets.end(), t) == targets.end()) targets.push_back(t);
     }
     // presets: inputs (mostly), some produced data too (their producer then must not run)
     struct Pre { int d; OptVal v; int how; };   // how: 0 main thread, 1 another thread before the run, 2 another thread during the run
     std::vector<Pre> pres;
     for (int d = 0; d < s.ndata; ++d) {
+      if (b.data[d] == nullptr) continue;
       bool is_input = d < ninputs;
       uint64_t r = rng.below(100);
       if (is_input ? r < 92 : r < 6) {
@@ -442,6 +455,12 @@ static void run_graph(uint64_t seed, const std::string& mode) {
     vrt_begin(seed * 8 + cyc);
     vrt_event("cycle %d exec=%s workers=%d", cyc, pool ? "pool" : "inplace", pool ? workers : 0);
     emit_spec(s);
+    for (auto& p : pres) vrt_event("env %d %s", p.d, show(p.v).c_str());
+    {
+      std::string t = "targets";
+      for (int x : targets) t += " " + std::to_string(x);
+      vrt_event("%s", t.c_str());
+    }
     if (pool) {
       tp.reset(new ThreadPoolGraphExecutor);
       tp->initialize(workers, 64);
@@ -494,6 +513,7 @@ static void run_graph(uint64_t seed, const std::string& mode) {
       }
       for (int d = 0; d < s.ndata; ++d) {
         GraphData* gd = b.data[d];
+        if (gd == nullptr) continue;
         OptVal v;
         bool rdy = gd->ready();
         if (rdy && !gd->empty()) {
@@ -574,8 +594,11 @@ static void run_dep(uint64_t seed) {
   Built b;
   bool has_cond = rng.below(3) != 0;
   bool ev = rng.below(2);
-  // data: 0 = T, 1 = C, 2 = X ; vertices: 0 = PT (stash), 1 = PC (stash), 2 = V
-  b.spec.ndata = 3;
+  // data: 0 = T, 1 = C, 2 = X, 3 = Y ; vertices: 0 = PT (stash), 1 = PC (stash), 2 = V, 3 = PY (stash)
+  // Y is a second target whose asynchronous producer PY is completed by the main thread after the external actors
+  // have been joined: the closure therefore stays open while C / T act (an emitter the closure does not know about
+  // must not outlive the closure — see mode inject for what happens otherwise)
+  b.spec.ndata = 4;
   {
     VertS pt;
     pt.id = 0;
@@ -593,7 +616,11 @@ static void run_dep(uint64_t seed) {
     d.ev = ev;
     v.deps.push_back(d);
     v.emits = {2};
-    b.spec.verts = {pt, pc, v};
+    VertS py;
+    py.id = 3;
+    py.kind = STASH;
+    py.emits = {3};
+    b.spec.verts = {pt, pc, v, py};
   }
   InplaceGraphExecutor inplace;
   b.exec.inner = &inplace;
@@ -607,9 +634,9 @@ static void run_dep(uint64_t seed) {
     RunCtx rc;
     rc.spec = &b.spec;
     rc.data = b.data;
-    rc.invoked.assign(3, 0);
-    rc.activated.assign(3, 0);
-    rc.publishes.assign(3, 0);
+    rc.invoked.assign(4, 0);
+    rc.activated.assign(4, 0);
+    rc.publishes.assign(4, 0);
     g = &rc;
     // how each external actor occurs: 0 absent (flushed empty at the end), 1 before the run, 2 concurrently
     int how_t = (int)rng.below(5);
@@ -655,8 +682,8 @@ static void run_dep(uint64_t seed) {
     yields(da);
     vrt_event("run 2");
     {
-      GraphData* tvv[1] = {b.data[2]};
-      Closure closure = b.graph->run(tvv, (size_t)1);
+      GraphData* tvv[2] = {b.data[2], b.data[3]};
+      Closure closure = b.graph->run(tvv, (size_t)2);
       for (auto& t : ts) t.join();
       // absent actors: the stashed producers are completed now, which flushes their data empty
       while (!rc.stash.empty()) {
@@ -705,7 +732,7 @@ int main(int argc, char** argv) {
   for (int i = 0; i < nruns; ++i) {
     uint64_t seed = seed0 + i;
     if (mode == "dep") run_dep(seed);
-    else if (mode == "graph" || mode == "pool" || mode == "inject") run_graph(seed, mode);
+    else if (mode == "graph" || mode == "pool" || mode == "inject" || mode == "samedata") run_graph(seed, mode);
     else return 2;
   }
   return 0;
